@@ -361,6 +361,12 @@ impl HashIndex {
     fn extract_key(&self, tuple: &Tuple) -> Tuple {
         tuple.from_indices(&self.spec.key_columns)
     }
+
+    /// Verification accessor: the index's Bloom filter (read-only).
+    #[cfg(inputlayer_verif)]
+    pub fn verif_bloom(&self) -> &BloomFilter {
+        &self.bloom
+    }
 }
 
 /// Manager for hash indexes across all relations.
